@@ -77,6 +77,9 @@ Plain.__module__ = "vgen"
 
 def marker(tag):
     def handler(obj, serialize_method, ignore_attribute, ignore, config):
+        if isinstance(obj, H) and obj.n % 4 == 0:
+            # what a handler returns is emitted verbatim - falsy values included
+            return [None, "", 0, [], {}, False][(obj.n // 4) % 6]
         if isinstance(obj, H):
             what = "H%d" % obj.n
         elif isinstance(obj, (set, frozenset)):
